@@ -34,6 +34,12 @@ PayloadStep(e, s) ==
 DepackStep(e, s) ==
   LET rr == RxReason(s.rx, <<e.payload>>, <<e>>, 1) IN [reason |-> rr.reason, s |-> [s EXCEPT !.rx = rr.s]]
 
+HugeReason(e) ==     \* one item of about 17 MB: the harness reports lengths and equality facts (the bytes do not travel)
+  IF e.res # "ok" THEN "huge_item_panic"
+  ELSE IF e.nfrags = 0 THEN "huge_item_no_packets"
+  ELSE IF e.maxlen > e.mtu THEN "huge_item_fragment_exceeds_mtu"
+  ELSE IF \E k \in 1..Len(e.facts) : ~e.facts[k] THEN "huge_item_not_reproduced"
+  ELSE ""
 Init == l = 1 /\ st = [poisoned |-> TRUE]
 Next ==
   /\ l <= Len(Trace)
@@ -41,7 +47,8 @@ Next ==
   /\ LET e == Trace[l] IN
        IF e.ev = "reset" THEN st' = Fresh(e)
        ELSE IF st.poisoned THEN UNCHANGED st
-       ELSE LET r == IF e.ev = "payload" THEN PayloadStep(e, st) ELSE IF e.ev = "depack" THEN DepackStep(e, st) ELSE [reason |-> "unknown_event", s |-> st] IN
+       ELSE LET r == IF e.ev = "payload" THEN PayloadStep(e, st) ELSE IF e.ev = "depack" THEN DepackStep(e, st)
+                     ELSE IF e.ev = "huge" THEN [reason |-> HugeReason(e), s |-> st] ELSE [reason |-> "unknown_event", s |-> st] IN
             IF r.reason = "" THEN st' = r.s
             ELSE Reject(e, r.reason) /\ st' = [st EXCEPT !.poisoned = TRUE]
 Spec == Init /\ [][Next]_<<l, st>>
